@@ -5,6 +5,8 @@ import (
 	"encoding/json"
 	"fmt"
 	"os"
+	"runtime"
+	"runtime/debug"
 	"sort"
 	"strings"
 	"testing"
@@ -249,6 +251,12 @@ func doExplore(t *testing.T, job *Job) {
 			fmt.Fprintf(os.Stderr, "DSIM_DEBUG idx=%d case=%s\n", idx, b)
 		}
 		res, rec := runOne(t, c, seed, nil, false, job.Trace)
+		if c.Mode == "huge" {
+			// a run with a buffer of more than a gigabyte: give it back before the next one is
+			// allocated (three of them in flight exceed the address-space limit of a worker)
+			runtime.GC()
+			debug.FreeOSMemory()
+		}
 		res.Index = idx
 		ck.Runs++
 		ck.Steps += res.Steps
